@@ -1,0 +1,32 @@
+//go:build verif
+
+package db
+
+import "fmt"
+
+// helpers for verification hooks (build tag `verif`)
+
+func verifObj(p any) string { return fmt.Sprintf("%T@%p", p, p) }
+
+func verifSeqs(seqs []SequenceID) [][3]uint64 {
+	res := make([][3]uint64, 0, len(seqs))
+	for _, s := range seqs {
+		res = append(res, [3]uint64{s.LowSeq, s.TriggeredBy, s.Seq})
+	}
+	return res
+}
+
+func verifSeqSet(m map[SequenceID]struct{}) [][3]uint64 {
+	res := make([][3]uint64, 0, len(m))
+	for s := range m {
+		res = append(res, [3]uint64{s.LowSeq, s.TriggeredBy, s.Seq})
+	}
+	return res
+}
+
+func verifErr(err error) string {
+	if err == nil {
+		return ""
+	}
+	return err.Error()
+}
